@@ -213,6 +213,8 @@ impl WorkerPool {
             let first_packet = match rx.recv_timeout(timeout) {
                 Ok(packet) => packet,
                 Err(RecvTimeoutError::Timeout) => {
+                    #[cfg(huginn_net_verif)]
+                    crate::verif_hooks::perturb(3);
                     if shutdown_flag.load(Ordering::Relaxed) {
                         tracing::debug!(
                             "TCP worker {worker_id} received shutdown signal during timeout"
